@@ -113,6 +113,7 @@ fn after<E: Ep, C: Checker<NetModel<E>>>(
     }
     let st = json!({
         "real_calls_total": stats.transitions.load(Ordering::Relaxed),
+        "datagrams_refused_by_the_environment": stats.refused_datagrams.load(Ordering::Relaxed),
         "max_rank_rounds": stats.max_rank.load(Ordering::Relaxed),
         "ranked_states": stats.rank_states.load(Ordering::Relaxed),
         "c03_states_swept": stats.c03_states.load(Ordering::Relaxed),
